@@ -9,6 +9,7 @@ mod c05;
 mod c07;
 mod c08;
 mod c09;
+mod c16;
 mod c19;
 mod pipe;
 mod readers;
@@ -54,6 +55,7 @@ fn main() {
                 "C08" => c08::record(&mut rec, seed, thorough),
                 "C09" => c09::record_c09(&mut rec, seed, thorough),
                 "C14" => readers::record_c14(&mut rec, seed, thorough),
+                "C16" => c16::record(&mut rec, seed, thorough),
                 "C15" => readers::record_c15(&mut rec, seed, thorough),
                 "C10" => c09::record_c10(&mut rec, seed, thorough),
                 _ => {
